@@ -97,6 +97,8 @@ DropRet(s, r) ==
   IN IF rt.kind = "plain" THEN Emit(s1, [e |-> "retcb", rid |-> r, has |-> FALSE, val |-> 0])
      ELSE IF rt.kind \in {"to", "toprep"} /\ s.alive
      THEN [s1 EXCEPT !.deferQ = Append(@, [Clo("retcall", 0, rt.aid, rt.kind = "toprep") EXCEPT !.rid = r])]
+     ELSE IF rt.kind = "someto"
+     THEN Emit(s1, [e |-> "argdrop", rid |-> r])     \* nothing is queued for None: the closure goes now
      ELSE s1
 
 \* the Drop handler of a closure's captures: defers another closure
